@@ -300,3 +300,19 @@ class ListMessenger(Messenger):
     def send(self, message, **kwargs):
         import vf.rec as R
         R.MSGS.append(dict(message))
+
+
+@python.define(outputs={"a": int, "b": int, "note": python.out(type=str | None, default=None)})
+def TwoOpt(mode: int, x: int = 0):
+    """outputs a, b mandatory and an optional note; return shape selected by mode"""
+    import vf.rec as R
+    R.rec("TwoOpt", mode, x)
+    return {
+        0: {"a": x, "b": 2}, 1: {"a": x, "b": 2, "note": "n"}, 2: {"a": x, "note": "partial"}, 3: {"b": 2, "note": "partial"},
+        4: {"note": "only"}, 5: {"a": x}, 6: (x, 2, "n"), 7: (x, 2),
+    }[mode]
+
+
+from pydra.compose import shell as _shell  # noqa: E402
+
+Sh = _shell.define("tool", inputs={"v": _shell.arg(type=str, argstr="-v", position=1)}, name="Sh")
